@@ -310,3 +310,26 @@ func VerifStreamMemory() {
 	}
 	vReach("memory")
 }
+
+// VerifStreamPeekRune: PeekRune on valid UTF-8 (1..4 byte sequences, every lead byte class) equals
+// unicode/utf8 under any chunking of the reader.
+func VerifStreamPeekRune() {
+	n := vRange("n", 1, vParam("N", 4))
+	data := vBytes("d", n)
+	vAssume(utf8.Valid(data))
+	size := vRange("size", 1, 2)
+	ch := vRange("ch", 1, 2)
+	z := NewStreamLexerSize(&vnFixedReader{data: append([]byte(nil), data...), ch: ch}, size)
+	pos := 0
+	for pos < n {
+		r, w := z.PeekRune(0)
+		rr, rw := utf8.DecodeRune(data[pos:])
+		vAssert(r == rr && w == rw, "stream-peekrune")
+		z.Move(w)
+		pos += w
+		if vBool("skip") {
+			z.Skip()
+		}
+	}
+	vReach("peekrune")
+}
